@@ -345,7 +345,9 @@ var successScope = map[string][]string{
 
 func runWithCommon(def *propDef, r *Run) {
 	def.Run(r)
-	if sc := successScope[def.ID]; len(sc) > 0 {
+	// the generated tables are frozen from the default build configuration; other configurations
+	// (thorough tier: -tags libznn) select a few different files and are checked by the property rows only
+	if sc := successScope[def.ID]; len(sc) > 0 && *flagTags == "" {
 		r.SuccessReturnTable(filePrefix(sc...), "a function hands out, on success, only the result forms it handed out on the reviewed tree: a new one (a memoised value, the configured instead of the stored record, a shortcut result) is a new accepting path")
 		r.MustPassGuardTable(filePrefix(sc...), "the rules of this property pin what the accepting paths check; a new accepting path (fast path, early success) that gets around a guard bypasses them")
 		if def.ID == "C15" || def.ID == "C14" || def.ID == "C18" || def.ID == "C09" {
